@@ -48,8 +48,11 @@ def expected : List ((String × String × String) × Kind) := [
   (("utils", "PackTable", "map[int][]int"), .disjointWrites)
 ]
 
-/-- every map loop of the current sources is one of the reviewed ones -/
-theorem sites_as_expected : Gen.mapRangeSites = expected.map Prod.fst := rfl
+/-- every map loop of the current sources is one of the reviewed ones: no site occurs more often than the review
+    lists it (a loop that was REMOVED, e.g. because a map became a slice, needs no review) -/
+theorem sites_as_expected :
+    Gen.mapRangeSites.all (fun s => decide (Gen.mapRangeSites.count s ≤ (expected.map Prod.fst).count s)) = true := by
+  decide
 
 /-- every kind with a proof obligation occurs, and there are exactly 14 sites -/
 example : expected.length = 14 ∧ (expected.map Prod.snd).eraseDups.length = 5 := by decide
